@@ -436,3 +436,53 @@ Proof.
     + intros r' Hr'. rewrite list_eqb_sym. apply Hd1. exact Hr'.
   - apply IH; assumption.
 Qed.
+
+(* ---- retirement markers: a completed run is stepped over and not retired again ---- *)
+Lemma complete_marker_facts data sector remaining :
+  is_complete_marker data sector remaining = true ->
+  list_eqb (firstn 8 data) DELETED_TAG = true /\ u64_at data 8 = remaining /\
+  nth 18 data 0 = RETIREMENT_COMPLETE /\ marker_token sector data = u16_at data 16.
+Proof.
+  unfold is_complete_marker. intros H. repeat (apply andb_true_iff in H; destruct H as [H ?]).
+  repeat split; try assumption; try (apply N.eqb_eq; assumption). symmetry. apply N.eqb_eq. assumption.
+Qed.
+
+Lemma tails_complete_run k : forall sector remaining,
+  remaining < 2 ^ 64 -> tails_complete (marker_run sector remaining k) sector remaining = true.
+Proof.
+  induction k as [|k IH]; intros sector remaining Hr; cbn [marker_run tails_complete]; [reflexivity|].
+  rewrite marker_roundtrip by exact Hr. cbn [andb]. apply IH. lia.
+Qed.
+
+Lemma marker_run_length sector remaining k : length (marker_run sector remaining k) = k.
+Proof. revert sector remaining. induction k as [|k IH]; intros; cbn; [reflexivity|]. rewrite IH. reflexivity. Qed.
+
+Theorem scan_step_skips_a_complete_marker_run c version total sector n st jl rest' :
+  c_ro c = false -> has_token version = true ->
+  0 < n -> sector + n <= total -> total <= U64MAX ->
+  scan_step c version total sector (marker_run sector n (N.to_nat n) ++ rest') st jl = Ok (Advance (sector + n) st jl).
+Proof.
+  intros Hrw Ht Hn Hin Hmax. assert (Hr : n < 2 ^ 64) by (unfold U64MAX in Hmax; lia).
+  destruct (N.to_nat n) as [|k] eqn:NK; [lia|]. cbn [marker_run app].
+  pose proof (marker_roundtrip sector n Hr) as MR.
+  destruct (complete_marker_facts _ _ _ MR) as (F1 & F2 & F3 & F4).
+  unfold scan_step. rewrite Hrw, F1, Ht. cbn [negb andb]. rewrite F4, N.eqb_refl. cbn [negb]. rewrite F2.
+  destruct (N.ltb_spec U64MAX (sector + n)); [lia|].
+  destruct (N.eqb_spec n 0); [lia|]. destruct (N.ltb_spec total (sector + n)); [lia|]. cbn [orb].
+  rewrite F3, N.eqb_refl. cbn [negb].
+  destruct (1 <? n); [|reflexivity].
+  replace (N.to_nat (n - 1)) with k by lia. rewrite firstn_app, marker_run_length, Nat.sub_diag. cbn [firstn]. rewrite app_nil_r.
+  rewrite firstn_all2 by (rewrite marker_run_length; lia). rewrite tails_complete_run by lia. reflexivity.
+Qed.
+
+(* a zero block (free space) is stepped over, one block at a time *)
+Theorem scan_step_skips_a_zero_block c version total sector st jl rest' :
+  c_ro c = false ->
+  scan_step c version total sector (zeros BLOCK :: rest') st jl = Ok (Advance (sector + 1) st jl).
+Proof.
+  intros Hrw. unfold scan_step. rewrite Hrw.
+  assert (B8 : (8 <= BLOCK)%nat) by (unfold BLOCK, FEOX_BLOCK_SIZE; lia).
+  destruct (zero_block_is_neither BLOCK B8) as [Z1 Z2].
+  destruct (list_eqb (firstn 8 (zeros BLOCK)) DELETED_TAG) eqn:E; [apply list_eqb_eq in E; contradiction|].
+  destruct (N.eqb_spec (u16_at (zeros BLOCK) 0) SECTOR_MARKER); [contradiction|]. reflexivity.
+Qed.
